@@ -53,8 +53,11 @@ UNPROVED = ["score_sum_monotone for unscored_value='min' (modelled through C12's
 NAMES = Names(prefix='c')
 PNAMES = Names(prefix='p')
 DIVISORS = ['d_hondt', 'sainte_lague', 'imperiali', 'danish', 'macau']
-POSITIONAL = ['borda', 'dowdall', 'geometric', 'modified_borda', 'fixed_top']
-BULLET_RULES = ['bucklin', 'bucklin_whole', 'copeland', 'minimax_wv', 'minimax_margins', 'schulze']
+POSITIONAL = ['borda', 'dowdall', 'geometric', 'modified_borda', 'fixed_top', 'sequence']
+BULLET_RULES = ['bucklin', 'bucklin_whole', 'copeland', 'minimax_wv', 'minimax_margins', 'minimax_pwo', 'schulze']
+# rules whose evaluation accepts Decimal weights (Fraction scorers / Fraction(sum, 2) refuse Decimal)
+DEC_OK = ['plurality', 'approval', 'borda', 'modified_borda', 'fixed_top', 'copeland', 'minimax_wv', 'minimax_margins', 'minimax_pwo',
+          'schulze']
 RANKED_RULES = POSITIONAL + BULLET_RULES
 ALL_RULES = ['ha', 'plurality'] + POSITIONAL + ['approval', 'score_sum'] + BULLET_RULES
 
@@ -78,26 +81,38 @@ def dec_ballot(j, names):
     return tuple(dec_item(it, names) for it in j)
 
 
-def py_profile(rule, prof):
-    """protocol profile -> the dict votelib takes (insertion order = protocol order)"""
+def py_profile(rule, prof, wtype=None, stype=None):
+    """protocol profile -> the dict votelib takes (insertion order = protocol order); wtype / stype: numeric type of the
+    weights / of the scores"""
     out = {}
     if rule == 'plurality':
         for c, s in prof:
-            out[NAMES.n(c)] = _num(s)
+            out[NAMES.n(c)] = _num(s, wtype)
     elif rule == 'approval':
         for b, s in prof:
-            out[frozenset(NAMES.n(c) for c in b['set'])] = _num(s)
+            out[frozenset(NAMES.n(c) for c in b['set'])] = _num(s, wtype)
     elif rule == 'score_sum':
         for b, s in prof:
-            out[frozenset((NAMES.n(c), _num(x)) for c, x in b['set'])] = _num(s)
+            out[frozenset((NAMES.n(c), _num(x, stype)) for c, x in b['set'])] = _num(s)
     else:
         for b, s in prof:
-            out[dec_ballot(b, NAMES)] = _num(s)
+            out[dec_ballot(b, NAMES)] = _num(s, wtype)
     return out
 
 
-def _num(s):
+def _num(s, typ=None):
+    """protocol number -> int / Fraction, or (typ 'frac' / 'dec') a Fraction / Decimal throughout"""
     f = Fraction(s)
+    if typ == 'frac':
+        return f
+    if typ == 'dec':
+        from decimal import Decimal, localcontext
+        with localcontext() as ctx:
+            ctx.prec = 80
+            d = Decimal(f.numerator) / Decimal(f.denominator)
+        if Fraction(d) == f:
+            return d
+        return f
     return int(f) if f.denominator == 1 else f
 
 
@@ -228,6 +243,8 @@ def minimax_strict(prof, w, scorer):
                 continue
             if scorer == 'wv':
                 vals.append(d[y][x] if d[y][x] > d[x][y] else Fraction(0))
+            elif scorer == 'pwo':
+                vals.append(d[y][x])
             else:
                 vals.append(d[y][x] - d[x][y])
         return max(vals) if vals else None      # None = no opponent at all (-inf)
@@ -278,6 +295,9 @@ def scorer_list(rule, param, n_cand, n_ranked):
         return [Fraction(n_ranked - r) for r in range(n_ranked)]
     if rule == 'fixed_top':
         return [Fraction(max(param - r, 0)) for r in range(n_ranked)]
+    if rule == 'sequence':
+        seq = [Fraction(x) for x in param]
+        return (seq + [Fraction(0)] * n_ranked)[:n_ranked]
     raise ValueError(rule)
 
 
@@ -297,8 +317,10 @@ def ref_scores(rule, param, prof):
         return {c: Fraction(s) for c, s in prof}
     if rule == 'approval':
         for b, s in prof:
+            if param and not b['set']:
+                return None                 # split=True divides by the size of the empty ballot
             for c in b['set']:
-                sc[c] = sc.get(c, 0) + Fraction(s)
+                sc[c] = sc.get(c, 0) + (Fraction(s) / len(b['set']) if param else Fraction(s))
         return sc
     if rule == 'score_sum':
         for b, s in prof:
@@ -372,7 +394,7 @@ def ref_winner(rule, param, prof):
         return ref_bucklin(prof, True)
     if rule == 'bucklin_whole':
         return ref_bucklin(prof, False)
-    if rule in ('copeland', 'minimax_wv', 'minimax_margins', 'schulze'):
+    if rule in ('copeland', 'minimax_wv', 'minimax_margins', 'minimax_pwo', 'schulze'):
         for w in all_cands(prof):
             if strict_first(rule, prof, w):
                 return w
@@ -392,6 +414,8 @@ def strict_first(rule, prof, w):
         return minimax_strict(prof, w, 'wv')
     if rule == 'minimax_margins':
         return minimax_strict(prof, w, 'margins')
+    if rule == 'minimax_pwo':
+        return minimax_strict(prof, w, 'pwo')
     if rule == 'schulze':
         return schulze_strict(prof, w)
     return True
@@ -408,16 +432,21 @@ def _ha_div(name, first):
     return f
 
 
-def _ha_eval(cfg):
+def _ha_evaluator(cfg):
     import votelib.evaluate.proportional as vp
+    return vp.HighestAverages(_ha_div(cfg['divisor'], cfg['first_coef']))
+
+
+def _ha_eval(cfg, ev=None):
     votes = {PNAMES.n(i): _num(s) for i, s in cfg['votes']}
     prev = {PNAMES.n(i): k for i, k in cfg['prev']}
     caps = {PNAMES.n(i): k for i, k in cfg['max']}
-    ev = vp.HighestAverages(_ha_div(cfg['divisor'], cfg['first_coef']))
+    if ev is None:
+        ev = _ha_evaluator(cfg)
     return guarded(lambda: enc_distribution(ev.evaluate(votes, cfg['n'], prev_gains=prev, max_seats=caps), PNAMES))
 
 
-def _evaluator(rule, param):
+def _evaluator(rule, param, stype=None):
     import votelib.evaluate.core as vcore
     import votelib.convert as vconv
     import votelib.component.rankscore as rs
@@ -428,12 +457,13 @@ def _evaluator(rule, param):
         return vcore.Plurality()
     if rule in POSITIONAL:
         scorer = {'borda': lambda: rs.Borda(param), 'dowdall': rs.Dowdall, 'geometric': lambda: rs.Geometric(param),
-                  'modified_borda': rs.ModifiedBorda, 'fixed_top': lambda: rs.FixedTop(param)}[rule]()
+                  'modified_borda': rs.ModifiedBorda, 'fixed_top': lambda: rs.FixedTop(param),
+                  'sequence': lambda: rs.SequenceBased([_num(x) for x in param])}[rule]()
         return vcore.PreConverted(vconv.RankedToPositionalVotes(scorer), vcore.Plurality())
     if rule == 'approval':
-        return vcore.PreConverted(vconv.ApprovalToSimpleVotes(), vcore.Plurality())
+        return vcore.PreConverted(vconv.ApprovalToSimpleVotes(split=bool(param)), vcore.Plurality())
     if rule == 'score_sum':
-        un = None if param is None else ('min' if param == 'min' else _num(param))
+        un = None if param is None else ('min' if param == 'min' else _num(param, stype))
         return vcard.ScoreVoting('sum', unscored_value=un)
     if rule == 'bucklin':
         return vseq.PreferenceAddition()
@@ -446,22 +476,36 @@ def _evaluator(rule, param):
         return vcore.PreConverted(conv, vcond.MinimaxCondorcet('winning_votes'))
     if rule == 'minimax_margins':
         return vcore.PreConverted(conv, vcond.MinimaxCondorcet('margins'))
+    if rule == 'minimax_pwo':
+        return vcore.PreConverted(conv, vcond.MinimaxCondorcet('pairwise_opposition'))
     if rule == 'schulze':
         return vcore.PreConverted(conv, vcond.Schulze())
     raise ValueError(rule)
 
 
-def _eval(rule, param, prof):
-    votes = py_profile(rule, prof)
-    ev = _evaluator(rule, param)
+def _eval(rule, param, prof, wtype=None, stype=None, ev=None):
+    votes = py_profile(rule, prof, wtype, stype)
+    if ev is None:
+        ev = _evaluator(rule, param, stype)
     return guarded(lambda: enc_selection(ev.evaluate(votes, 1), NAMES))
 
 
 def impl(case):
+    """`_obj`: 'fresh' = a new evaluator object per election; 'shared' = ONE object evaluates the base and then the
+    perturbed election; 'shared_rev' = one object, perturbed election first (state carried between calls)"""
+    obj = case.get('_obj', 'fresh')
     if case['rule'] == 'ha':
-        return {'base': _ha_eval(case['base']), 'pert': _ha_eval(case['pert'])}
-    return {'base': _eval(case['rule'], case.get('param'), case['base']),
-            'pert': _eval(case['rule'], case.get('param'), case['pert'])}
+        ev = _ha_evaluator(case['base']) if obj != 'fresh' else None
+        if obj == 'shared_rev':
+            p = _ha_eval(case['pert'], ev)
+            return {'base': _ha_eval(case['base'], ev), 'pert': p}
+        return {'base': _ha_eval(case['base'], ev), 'pert': _ha_eval(case['pert'], ev)}
+    rule, param, wt, st = case['rule'], case.get('param'), case.get('_wtype'), case.get('_stype')
+    ev = _evaluator(rule, param, st) if obj != 'fresh' else None
+    if obj == 'shared_rev':
+        p = _eval(rule, param, case['pert'], wt, st, ev)
+        return {'base': _eval(rule, param, case['base'], wt, st, ev), 'pert': p}
+    return {'base': _eval(rule, param, case['base'], wt, st, ev), 'pert': _eval(rule, param, case['pert'], wt, st, ev)}
 
 
 # ------------------------------------------------------------------------------------------------
@@ -587,14 +631,31 @@ def _rand_ranked(rng, m, shared_p):
 
 def _param(rng, rule):
     if rule == 'borda':
-        return rng.choice([1, 1, 0])
+        return rng.choice([1, 1, 0, 2])
     if rule == 'geometric':
-        return rng.choice([2, 2, 3])
+        return rng.choice([2, 2, 3, 10])
     if rule == 'fixed_top':
-        return rng.choice([1, 2, 3])
+        return rng.choice([1, 2, 3, 5])
+    if rule == 'sequence':
+        return rng.choice([['5', '3', '1'], ['10', '4', '4', '1'], ['3', '3/2'], ['1'], ['12', '10', '8', '7', '6', '5', '4', '3', '2', '1']])
     if rule == 'copeland':
         return rng.choice([1, 1, 0])
     return None
+
+
+def _ptag(param):
+    return 'x'.join(str(x).replace('/', '_') for x in param) if isinstance(param, list) else str(param)
+
+
+def _only_in_shared(base):
+    single, shared = set(), set()
+    for b, _ in base:
+        for it in b:
+            if isinstance(it, dict):
+                shared.update(it['set'])
+            else:
+                single.add(it)
+    return bool(shared - single)
 
 
 def _mk(rule, param, base, pert, w, kind, move, tags):
@@ -622,6 +683,10 @@ def ranked_moves(rule, param, base, w, rng=None, limit=None, extra_tags=()):
                 tags.append('fractional_weight')
             if any(nb == x for x, _ in base):
                 tags.append('merges_with_existing')
+            if len(nb) > max(len(x) for x, _ in base):
+                tags.append('lift_lengthens_longest')
+                if rule == 'modified_borda':
+                    tags.append('modified_borda:lift_lengthens_longest')
             out.append(_mk(rule, param, base, replace_unit(base, bi, nb), w, 'lift',
                            {'kind': 'lift', 'ballot': bi, 'pos': i}, tags))
     if rule in BULLET_RULES:
@@ -682,23 +747,35 @@ def gen_ranked(rng, rule, n_prof, limit=8):
     tries = 0
     while made < n_prof and tries < n_prof * 30:
         tries += 1
-        m = rng.randint(2, 4)
+        big = rng.random() < 0.08
+        m = rng.randint(6, 8) if big else rng.randint(2, 4)
         shared_p = 0.25
         base = _rand_ranked(rng, m, shared_p)
         param = _param(rng, rule)
+        extra = [f'{rule}:param_{_ptag(param)}']
+        if big:
+            extra.append('cands_6plus')
+        if _only_in_shared(base):
+            extra.append('only_in_shared_ranks')
         w = ref_winner(rule, param, base)
         if w is None:
             if rng.random() < 0.1:       # keep a few premise-false cases for the correspondence
                 w = all_cands(base)[0]
-                for c in ranked_moves(rule, param, base, w, rng, 2):
+                for c in ranked_moves(rule, param, base, w, rng, 2, extra_tags=extra):
                     yield c
             continue
         made += 1
-        for c in _tag_premise(ranked_moves(rule, param, base, w, rng, limit), rule):
+        for c in _tag_premise(ranked_moves(rule, param, base, w, rng, limit, extra_tags=extra), rule):
             yield c
+        if rng.random() < 0.2:
+            # the improvements of EVERY other candidate too: whoever the implementation elects alone is checked
+            for c2 in all_cands(base):
+                if c2 != w:
+                    for c in ranked_moves(rule, param, base, c2, rng, 3, extra_tags=extra + ['moves_for_every_candidate']):
+                        yield c
 
 
-CONDORCET_RULES = ['copeland', 'minimax_wv', 'minimax_margins', 'schulze']
+CONDORCET_RULES = ['copeland', 'minimax_wv', 'minimax_margins', 'minimax_pwo', 'schulze']
 
 
 def has_condorcet_winner(prof):
@@ -835,14 +912,16 @@ def _rand_approval(rng, m):
     return prof
 
 
-def approval_moves(base, w, rng=None):
+def approval_moves(base, w, rng=None, param=None):
     out = []
     cs = sorted({c for b, _ in base for c in b['set']})
+    ptag = [f'approval:split_{bool(param)}']
     for bi, (b, s) in enumerate(base):
         if w not in b['set']:
             nb = {'set': sorted(b['set'] + [w])}
-            out.append(_mk('approval', None, base, replace_unit(base, bi, nb), w, 'approve',
-                           {'kind': 'approve', 'ballot': bi}, ['approval:approve']))
+            tags = ['approval:approve'] + ptag + (['approval:approve_on_empty'] if not b['set'] else [])
+            out.append(_mk('approval', param, base, replace_unit(base, bi, nb), w, 'approve',
+                           {'kind': 'approve', 'ballot': bi}, tags))
     rest = [c for c in cs if c != w]
     subsets = []
     if rng is not None:
@@ -852,8 +931,8 @@ def approval_moves(base, w, rng=None):
             subsets += [list(x) for x in itertools.combinations(rest, k)]
     for sub in subsets:
         nb = {'set': sorted([w] + sub)}
-        out.append(_mk('approval', None, base, add_ballot(base, nb), w, 'new', {'kind': 'new', 'ballot': nb},
-                       ['approval:new']))
+        out.append(_mk('approval', param, base, add_ballot(base, nb), w, 'new', {'kind': 'new', 'ballot': nb},
+                       ['approval:new'] + ptag))
     return out
 
 
@@ -862,12 +941,18 @@ def gen_approval(rng, n_prof):
     for _ in range(n_prof * 20):
         if made >= n_prof:
             break
-        base = _rand_approval(rng, rng.randint(2, 4))
-        w = ref_winner('approval', None, base)
+        m = rng.randint(2, 4) if rng.random() < 0.9 else rng.randint(6, 8)
+        base = _rand_approval(rng, m)
+        param = rng.choice([None, None, 1])
+        if not param and rng.random() < 0.3 and all(b['set'] for b, _ in base):
+            base.append([{'set': []}, str(rng.choice([1, 2]))])        # a voter who approves nobody
+        w = ref_winner('approval', param, base)
         if w is None:
             continue
         made += 1
-        for c in _tag_premise(approval_moves(base, w, rng), 'approval'):
+        for c in _tag_premise(approval_moves(base, w, rng, param), 'approval'):
+            if m >= 6:
+                c['_tags'].append('cands_6plus')
             yield c
 
 
